@@ -74,7 +74,7 @@ pub struct Ctx {
     pub report: Report,
 }
 
-const NONTRIVIAL_CAP: usize = 30_000_000;
+const NONTRIVIAL_CAP: usize = 120_000_000;
 const MAX_REPLAYS: usize = 12;
 
 pub fn h64<T: Hash + ?Sized>(t: &T) -> u64 {
